@@ -269,6 +269,21 @@ impl LaxFunctor<usize, Lab, usize, Lab> for TableFunctor {
                 .lax_compose(&LOHG::singleton(Lab(a.0 + self.off), fs, ft))
                 .unwrap_or_else(LOHG::empty),
             2 => discrete_io(fs, ft),
+            4 => {
+                // edge-less spider merging all wires of one label: boundary nodes are repeated
+                let mut labs: Vec<usize> = vec![];
+                for x in fs.iter().chain(ft.iter()) {
+                    if !labs.contains(x) {
+                        labs.push(*x);
+                    }
+                }
+                let idx = |l: &usize| NodeId(labs.iter().position(|y| y == l).unwrap_or(0));
+                let mut f = LOHG::empty();
+                f.sources = fs.iter().map(idx).collect();
+                f.targets = ft.iter().map(idx).collect();
+                f.hypergraph.nodes = labs.clone();
+                f
+            }
             _ => {
                 if fs == ft {
                     LOHG::identity(fs)
